@@ -67,6 +67,9 @@ type World struct {
 	// first attempt with the k-th statement failing; after an error the client
 	// retries, an OK is as binding as any other
 	CallFaultAt int
+	// StreamAckFaultPct: this share of the stream sessions sends its ack / nack
+	// request while one statement of the stream fails
+	StreamAckFaultPct int
 	// StreamExtends lets stream sessions also extend deadlines (per ack id, in
 	// the same request as their nacks)
 	StreamExtends bool
